@@ -113,6 +113,15 @@ func c08S2(r *Run, rep *core.Report) {
 				work = append(work, x.Edges...)
 			case *ssa.BinOp:
 				work = append(work, x.X)
+			case *ssa.UnOp:
+				// named result kept in a cell (functions with defer): follow the values stored into it
+				if al, isA := x.X.(*ssa.Alloc); isA {
+					for _, ref := range *al.Referrers() {
+						if st, isS := ref.(*ssa.Store); isS && st.Addr == ssa.Value(al) {
+							work = append(work, st.Val)
+						}
+					}
+				}
 			}
 		}
 		nApp := 0
